@@ -297,6 +297,22 @@ def _reflags(node):
     raise AnalysisError(f'unmodelled reflags expression {unparse(node)}')
 
 
+def prod_record(p, values):
+    """the record sly hands to the action of production p (p[i], p[-i], p.SYMBOL, p.SYMBOL0 / SYMBOL1 for repeated symbols), as a dict for the interpreter"""
+    rec = {}
+    cnt = {s_: p.rhs.count(s_) for s_ in p.rhs}
+    seen = {}
+    for i, (s_, v) in enumerate(zip(p.rhs, values)):
+        rec[i] = v
+        rec[i - len(p.rhs)] = v
+        if cnt[s_] > 1:
+            rec[f'{s_}{seen.get(s_, 0)}'] = v
+            seen[s_] = seen.get(s_, 0) + 1
+        else:
+            rec[s_] = v
+    return rec
+
+
 def _const_value(src, file, expr):
     """value of a constant expression of a lexer class body (string literals, module-level constants, + % join, comprehensions), folded by the fail-closed
     interpreter; None when it is not a constant"""
